@@ -1348,11 +1348,32 @@ func (c *compiler) checkIdentifierLName(name unistring.String, offset int) {
 func (c *compiler) enterDummyMode() (leaveFunc func()) {
 	savedBlock, savedProgram := c.block, c.p
 	if savedBlock != nil {
-		c.block = &block{
-			typ:      savedBlock.typ,
-			label:    savedBlock.label,
-			outer:    savedBlock.outer,
-			breaking: savedBlock.breaking,
+		// break / continue statements register placeholders (offsets into the dummy program) on every block they
+		// exit and on their target block: the discarded code must see copies of the whole chain of enclosing blocks
+		copies := make(map[*block]*block)
+		var prev *block
+		for b := savedBlock; b != nil; b = b.outer {
+			nb := &block{
+				typ:        b.typ,
+				label:      b.label,
+				cont:       b.cont,
+				breaking:   b.breaking,
+				needResult: b.needResult,
+			}
+			copies[b] = nb
+			if prev != nil {
+				prev.outer = nb
+			} else {
+				c.block = nb
+			}
+			prev = nb
+		}
+		for _, nb := range copies {
+			if nb.breaking != nil {
+				if bb := copies[nb.breaking]; bb != nil {
+					nb.breaking = bb
+				}
+			}
 		}
 	}
 	c.p = &Program{
